@@ -234,6 +234,11 @@ def apk_case(ctx, rng, length):
     ctx.sig("apk", length)
 
 
+def replay(ctx, path):
+    """the workload is a fixed enumeration of shapes: a replay is a full run"""
+    run(ctx)
+
+
 def run(ctx):
     ctx.rule = ("tables with reference chains (control, must resolve exactly) and cycles of length 1..5 through plain entries and through bag items, 1..4 configurations per "
                 "node, optional concrete side values; get_resolved_res_configs(rid) and (rid, default config) run under a sys.monitoring step budget calibrated on the "
